@@ -360,6 +360,25 @@ proof fn lemma_rtt_constants()
     ensures ALPHA == 0.125f32, BETA == 0.25f32, K == 4,
 {
 }
+
+// ---------------------------------------------------------------- initial values (#[derive(Default)] / impl Default)
+impl Default for StunMessageTimeout {
+//@item stun_agent :: mod timeout > impl ::core::default::Default for StunMessageTimeout > fn default
+//@tags C05 C06 C11 C12
+//@spec
+    // no timer pending
+    ensures r.wf(), r.ms().len() == 0,
+//@head
+    proof { assert(Seq::<TimeoutItem>::empty().to_multiset().len() == 0) by { Seq::<TimeoutItem>::empty().to_multiset_ensures(); } }
+//@end
+}
+impl Default for RtoCalculator {
+//@item stun_agent :: mod timeout > impl Default for RtoCalculator > fn default
+//@tags C06
+//@spec
+    ensures r.rtt.ns@ == 500_000_000, r.rm == 1, r.rc == 7, r.last_rm == 16,
+//@end
+}
 proof fn vx_sentinel() ensures false {}
 } // verus!
 fn main() {}
